@@ -78,7 +78,7 @@ Proof. exact fmt_ptr_digits_proof. Qed.
 Print Assumptions C20_ptr_digits.
 
 (* (d) termination of the only counted loop in the layout code: the 5 slots of the exponent buffer are enough
-   and its text is the numeral, for every exponent the source admits (ASSERT(exponent < 1e4)) *)
+   and its text is the numeral, for every exponent the source allows (ASSERT(exponent < 1e4)) *)
 Theorem C20_exponent_digits : forall e, 1 <= e < 10000 -> exp_loop 5 e [] = dec e.
 Proof. exact exp_loop_digits_proof. Qed.
 Print Assumptions C20_exponent_digits.
